@@ -77,6 +77,7 @@ def run_check(pid, units, tier, seed, props_files=None, default_imports='', leve
     fn_status = (index or {}).get('functions', {})
     unit_status = {}
     discharged = 0
+    blocked_units = []
     for u in units:
         st = 'full'
         why = None
@@ -90,13 +91,22 @@ def run_check(pid, units, tier, seed, props_files=None, default_imports='', leve
         elif not ok_make:
             pf = [f for f in failed_files if any(f.endswith(p) for p in u.proof_files)] or \
                  ([f for f in failed_files if f.startswith('gen/') or '/Lib/' in f or '/Spec/' in f])
-            if pf or not failed_files:
+            if pf and all(f.startswith('theories/Proofs/') for f in pf):
+                st = proof_file_status(u, props_files, pf, makelog)
+                if st == 'failed':
+                    why = f'a lemma this unit rests on no longer checks: {sorted(pf)}'
+                elif st == 'blocked':
+                    why = f'not re-checked: an earlier lemma failed in {sorted(pf)}'
+            elif pf or not failed_files:
                 st, why = 'failed', f'does not compile: {sorted(pf) or "build error"}'
-            elif any(f.endswith(f'Props/{pf}.v') for f in failed_files for pf in props_files):
-                st, why = 'failed', 'Props file does not compile'
             else:
-                # some other unit's proof file broke; this unit's own files compiled
-                st = 'full'
+                # a Props file itself failed: theorems before the failing one are checked, the failing one is
+                # broken, later ones are blocked (not discharged, not separately reported)
+                st = props_status(u, props_files, makelog)
+                if st == 'failed':
+                    why = 'a theorem of this unit no longer checks in its Props file'
+                elif st == 'blocked':
+                    why = 'not re-checked: an earlier theorem in the same Props file failed'
         elif not ok_props:
             st, why = 'failed', 'Props file failed: ' + plog[-300:]
         else:
@@ -109,6 +119,8 @@ def run_check(pid, units, tier, seed, props_files=None, default_imports='', leve
         unit_status[u.name] = {'status': st, 'why': why, 'theorems': u.theorems}
         if st == 'full':
             discharged += len(u.theorems)
+        if st == 'blocked':
+            blocked_units.append(u.name)
     err = C.first_coq_error(makelog) if not ok_make else None
     broken = None
     if err:
@@ -209,7 +221,8 @@ def run_check(pid, units, tier, seed, props_files=None, default_imports='', leve
             path = C.write_replay(pid, u.name, {
                 'property': pid, 'unit': u.name, 'kind': 'no-failing-input-found',
                 'broken_obligation': broken, 'why': st['why'], 'theorems': u.theorems,
-                'correspondence_mismatches': mm[:3], 'build_log_tail': makelog[-1500:]})
+                'correspondence_mismatches': mm[:3], 'blocked_units': blocked_units,
+                'build_log_tail': makelog[-1500:]})
             violations.append((u.name, path, False))
             reported_units.add(u.name)
     # 3. impl-vs-model disagreement with proofs intact: the tie is broken (translator or modelling assumption)
@@ -256,6 +269,90 @@ def run_check(pid, units, tier, seed, props_files=None, default_imports='', leve
     print(f'OK property={pid} obligations={obligations} discharged={discharged} '
           f'correspondence_cases={corr["cases"]} wall={wall:.0f}s')
     return 0
+
+
+_PROPS_CACHE = {}
+
+
+def props_status(u, props_files, makelog):
+    """status of unit u when some Props file failed to compile"""
+    worst = 'full'
+    for pf in props_files:
+        rel = f'theories/Props/{pf}.v'
+        m = re.search(r'File "\./' + re.escape(rel) + r'", line (\d+), characters [\d-]+:\nError', makelog)
+        path = os.path.join(C.COQ, rel)
+        if pf not in _PROPS_CACHE:
+            names = []
+            for i, line in enumerate(open(path).read().split('\n')):
+                mm = re.match(r'\s*(Theorem|Lemma|Example)\s+([A-Za-z0-9_\']+)', line)
+                if mm:
+                    names.append((i + 1, mm.group(2)))
+            _PROPS_CACHE[pf] = names
+        names = _PROPS_CACHE[pf]
+        mine = [(ln, n) for (ln, n) in names if n in u.theorems]
+        if not mine:
+            continue
+        if not m:
+            # this Props file did not report an error itself; it may simply not have been built
+            if f'{rel}o' in makelog or True:
+                built = os.path.exists(path + 'o') and os.path.getmtime(path + 'o') >= os.path.getmtime(path)
+                if not built:
+                    worst = 'blocked' if worst == 'full' else worst
+            continue
+        errline = int(m.group(1))
+        failing = None
+        for (ln, n) in names:
+            if ln <= errline:
+                failing = n
+        for (ln, n) in mine:
+            if n == failing:
+                return 'failed'
+            if ln > errline:
+                worst = 'blocked'
+    return worst
+
+
+def lemma_spans(path):
+    out = []
+    for i, line in enumerate(open(path).read().split('\n')):
+        mm = re.match(r'\s*(Theorem|Lemma|Corollary|Example)\s+([A-Za-z0-9_\']+)', line)
+        if mm:
+            out.append((i + 1, mm.group(2)))
+    return out
+
+
+def proof_file_status(u, props_files, failed, makelog):
+    """unit status when proof files failed: lemmas before the first error are checked"""
+    used = set()
+    for pf in props_files:
+        txt = open(os.path.join(C.COQ, f'theories/Props/{pf}.v')).read()
+        for t in u.theorems:
+            mm = re.search(r'(?:Theorem|Lemma)\s+' + re.escape(t) + r'\b.*?Proof\.\s*exact\s*\(?\s*@?([A-Za-z0-9_\'.]+)', txt, re.S)
+            if mm:
+                used.add(mm.group(1).split('.')[-1])
+    worst = 'full'
+    for f in failed:
+        m = re.search(r'File "\./' + re.escape(f) + r'", line (\d+), characters [\d-]+:\nError', makelog)
+        if not m:
+            return 'failed'
+        errline = int(m.group(1))
+        spans = lemma_spans(os.path.join(C.COQ, f))
+        failing = None
+        for (ln, n) in spans:
+            if ln <= errline:
+                failing = n
+        names_here = {n: ln for (ln, n) in spans}
+        if not used:
+            return 'failed'
+        for n in used:
+            if n == failing:
+                return 'failed'
+            if n in names_here and names_here[n] > errline:
+                worst = 'blocked'
+            # lemmas defined in other (later) files that import the failed one are blocked as well
+            if n not in names_here:
+                worst = 'blocked' if worst == 'full' else worst
+    return worst if worst != 'full' else 'blocked'
 
 
 def ok_make_gen(makelog, failed_files):
